@@ -1605,6 +1605,17 @@ class Pipeline:
                 pipeline_str += f"    Possible input arguments: {input_args}\n"
         return pipeline_str
 
+    def __setstate__(self, state: dict) -> None:
+        """Restore the pipeline and re-register it with its functions.
+
+        `PipeFunc.__setstate__` starts with an empty ``_pipelines`` set, so without this
+        a mutation of a function of an unpickled pipeline (``update_bound``, ``update_renames``, ...)
+        would not invalidate the pipeline's cached graph, root arguments and defaults.
+        """
+        self.__dict__.update(state)
+        for f in self.functions:
+            f._pipelines.add(self)
+
     def copy(self, **update: Any) -> Pipeline:
         """Return a copy of the pipeline.
 
